@@ -43,7 +43,7 @@ type Thread struct {
 	started bool
 	exited  chan struct{}
 	// Daemon threads do not keep an execution alive and are not reported as leaked.
-	Daemon bool
+	Daemon   bool
 	lastRun  int // scheduler step at which the thread last ran (fairness)
 	sameOp   int // consecutive identical operations (spin detection)
 	lastKind string
@@ -98,7 +98,7 @@ type Sched struct {
 	consec        int
 	lastPicked    *Thread
 	Stall         time.Duration // virtual time that passed through "clock" deviations (all threads stalled)
-	Spinning      bool // WaitSettled was released by its step budget, not by quiescence
+	Spinning      bool          // WaitSettled was released by its step budget, not by quiescence
 	spawnFlags    map[string]bool
 	quiesceWaiter *Thread
 	quiescent     bool
